@@ -121,6 +121,14 @@ def handleEprReq (op : String) (j : Json) : Option Json :=
     let arr ← (jField? j "arr").bind optArr?
     pure (Json.mkObj [("req", match getCreateRequest remote purpose arr with
       | some kw => kwToJson kw | none => Json.null)])
+  else if op == "eprreq.layout" then do
+    let nv ← (jField? j "nv").bind jBool?
+    let seq ← (jField? j "seq").bind jBool?
+    let n ← (jField? j "n").bind jNat?
+    pure (Json.mkObj [("layout", Json.arr ((List.range n).map fun i =>
+      let (v, sl) := handleLayout nv seq n i
+      ofNats [i, v, sl]).toArray),
+      ("pairloc", ofNats ((List.range n).map fun k => if seq then 0 else if nv then nvPairLocation n k else k))])
   else if op == "eprreq.handles" then do
     -- store the responses, then read every handle attribute of every pair through the model indices
     let rsJ ← (jField? j "rs").bind jArr?
